@@ -326,6 +326,37 @@ theorem user_overrides_platform (T : Target) (plat u₁ : List OptInst) (o : Opt
   rw [← List.append_assoc]
   exact last_wins T (plat ++ u₁) o u₂ f v v0 pre hw hlast
 
+/-- … through the real constructor: `platform.NewPlatform` hands `platformOptions ++ userOptions`
+to `generic.NewDriver`; for every field of an object that gets built, a user option replacing it
+(the last of the user's options naming it) determines the value of the driver that comes back. -/
+theorem user_overrides_platform_generic (plat u₁ : List OptInst) (o : OptInst) (u₂ : List OptInst)
+    (c : Config) (f : Field) (v : Val) (pre : List (Mode × Val))
+    (hv : AllValid (plat ++ (u₁ ++ o :: u₂)))
+    (hf : f ≠ .generic_Driver_Logger)
+    (hreach : f.target ∈ genericReached (plat ++ (u₁ ++ o :: u₂)) c)
+    (hw : writesTo f.target f o = pre ++ [(Mode.set, v)]) (hlast : ∀ o' ∈ u₂, writesTo f.target f o' = []) :
+    ∃ c', construct .generic (plat ++ (u₁ ++ o :: u₂)) c = .ok c' ∧ c' f = v := by
+  refine ⟨_, construct_eq_spec .generic _ c hv, ?_⟩
+  show specGeneric _ c f = v
+  unfold specGeneric
+  simp only [hf, if_false, hreach, if_true]
+  exact user_overrides_platform f.target plat u₁ o u₂ f v (c f) pre hw hlast
+
+/-- the hypotheses are satisfiable: a platform `port` option overridden by the user's `WithPort` -/
+example : ∃ c', construct .generic
+      ([{ opt := .WithPort, args := [[[50,48,50,50]]] }] ++ ([] ++ ({ opt := .WithPort, args := [[[56,48]]] } : OptInst) :: []))
+      defaults = .ok c' ∧ c' .transport_Args_Port = [[56,48]] := by
+  apply user_overrides_platform_generic _ _ _ _ _ _ _ []
+  · intro o ho
+    simp at ho
+    rcases ho with h | h <;> subst h <;> decide
+  · decide
+  · have : Field.transport_Args_Port.target = Target.transport_Args := rfl
+    simp [genericReached, this]
+  · have : Field.transport_Args_Port.target = Target.transport_Args := rfl
+    simp [writesTo, applies, spec, valueOf, this]
+  · simp
+
 /-- An additive setting named by both has the platform's values first, then the user's, in order. -/
 theorem user_appends_after_platform (T : Target) (plat user : List OptInst) (f : Field) (v0 : Val)
     (h : ∀ mv ∈ (plat ++ user).flatMap (writesTo T f), mv.1 = Mode.append) :
